@@ -319,7 +319,7 @@ impl Write for SimDisk {
                 sh.benign_fired += 1;
             }
         }
-        {
+        if n > 0 {
             let mut sh = self.shared.borrow_mut();
             let p = self.pos as usize;
             if sh.data.len() < p + n {
